@@ -271,6 +271,9 @@ func (s *Sim) Gen(r *PRNG) Step {
 		if r.Chance(0.2) {
 			st.C = 1
 		}
+		if s.Cfg.Profile == "bigint" && r.Chance(0.3) {
+			st.B = 11 // template with an integer above 2^53
+		}
 	case "partition":
 		st.A, st.B = r.Intn(nsets), r.Intn(7)
 	case "strategy", "policy":
